@@ -64,6 +64,18 @@ theorem refs_resolve_flat {g : Graph} (wf : WF g) (c : RenderCfg) (names : NameM
   | none => simp [hl] at hn
   | some v => simp only [hl, Option.join_some] at hn; rw [hn]
 
+/-- every layout (any path injection): in a well-formed registry every quoted reference is the reference text
+    `ptrRef e i n` (`'Name'` or `'Root.Name'`) of a REGISTERED, named model the field type points to -/
+theorem refs_resolve_layout {g : Graph} (wf : WF g) (c : RenderCfg) (e : RefEnv)
+    {m : Model} (hm : m ∈ g.models) {f : String × Ty} (hf : f ∈ m.fields)
+    {a : Ann} (ha : tyAnn c e f.2 = some a) :
+    ∀ r ∈ annRefs a, ∃ m' ∈ g.models, m'.idx ∈ ptrsOf f.2 ∧ ∃ n, e.name? m'.idx = some n ∧ r = ptrRef e m'.idx n := by
+  intro r hr
+  obtain ⟨i, hi, n, hn, e'⟩ := annRefs_of_tyAnn c e f.2 a ha r hr
+  have hreg : i ∈ idxs g := wf.fields m hm i (mem_ptrsOfFields.2 ⟨f, hf, hi⟩)
+  obtain ⟨m', hm', rfl⟩ := List.mem_map.1 hreg
+  exact ⟨m', hm', hi, n, hn, e'⟩
+
 /-- the statement for the text `typingCode` emits: it is the print of a term all of whose references resolve -/
 theorem refs_resolve_flat_code {g : Graph} (wf : WF g) (c : RenderCfg) (names : NameMap)
     {m : Model} (hm : m ∈ g.models) {f : String × Ty} (hf : f ∈ m.fields)
@@ -84,7 +96,8 @@ theorem refs_resolve_flat_code {g : Graph} (wf : WF g) (c : RenderCfg) (names : 
 
 /-- **refs_resolve_flat_module**: if the flat rendering of a well-formed registry succeeds with final names `F`, the
     module consists of one class per registered model (each exactly once), and every quoted reference in the
-    annotation of any field of any class is the name of one of these classes. -/
+    annotation of any field of any class is the name of one of these classes — the class of a model the field type
+    points to. -/
 theorem refs_resolve_flat_module {c : RenderCfg} {o : RenderOracles} {g : Graph} {l : List String}
     {pre : Option String} {text : String} {F : NameMap} (wf : WF g)
     (hl : composeFlat g = .ok l)
@@ -93,15 +106,15 @@ theorem refs_resolve_flat_module {c : RenderCfg} {o : RenderOracles} {g : Graph}
     (∃ hs, l.mapM (fun i => Rend2.classHead c o ⟨F, []⟩ (Rend2.modelAt g F i)) = .ok hs ∧
       text = Rend2.moduleText pre hs) ∧
     ∀ m ∈ g.models, ∀ f ∈ m.fields, ∀ a, tyAnn c ⟨F, []⟩ f.2 = some a → ∀ r ∈ annRefs a,
-      ∃ j ∈ l, (Rend2.modelAt g F j).name = some r := by
+      ∃ j ∈ l, j ∈ ptrsOf f.2 ∧ (Rend2.modelAt g F j).name = some r := by
   have honce := C12.flat_once hl wf.nodup
   refine ⟨honce, ?_, ?_⟩
   · obtain ⟨rs, h1, h2⟩ := Rend2.generateCode_text h (Rend2.readyL_flat _ _ _)
     rw [Rend2.nodesText_flat] at h1
     exact ⟨rs, h1, h2⟩
   · intro m hm f hf a ha r hr
-    obtain ⟨m', hm', _, hlk⟩ := refs_resolve_flat wf c F hm hf ha r hr
-    refine ⟨m'.idx, (honce.2 _).2 ⟨m', hm', rfl⟩, ?_⟩
+    obtain ⟨m', hm', hp, hlk⟩ := refs_resolve_flat wf c F hm hf ha r hr
+    refine ⟨m'.idx, (honce.2 _).2 ⟨m', hm', rfl⟩, hp, ?_⟩
     show Rend2.lookup F m'.idx = some r
     rw [← Rend2.name?_eq F [] m'.idx, name?_eq_lookup]
     simp [hlk]
@@ -259,6 +272,7 @@ end J2M.C03S
 #print axioms J2M.C03S.generateNames_WF
 #print axioms J2M.C03S.refs_from_ptrs
 #print axioms J2M.C03S.refs_resolve_flat
+#print axioms J2M.C03S.refs_resolve_layout
 #print axioms J2M.C03S.refs_resolve_flat_code
 #print axioms J2M.C03S.refs_resolve_flat_module
 #print axioms J2M.C03S.typing_ok_iff
